@@ -13,6 +13,8 @@ The output is deterministic: identical source text gives byte-identical Lean tex
 import ast
 import os
 
+OUTPUTS = ['InterpOps.lean']
+
 
 def _lean_str(s):
     out = []
